@@ -98,3 +98,15 @@ Proof. vm_compute. repeat split; try reflexivity; lia. Qed.
 
 Example i_repr_div_rem_example : i_repr_div_rem 64 (2 ^ 200 + 12345) (2 ^ 130 + 7) = Ok ((2 ^ 200 + 12345) / (2 ^ 130 + 7), (2 ^ 200 + 12345) mod (2 ^ 130 + 7)).
 Proof. vm_compute. reflexivity. Qed.
+
+(** the divide-and-conquer kernel itself, run inside Coq on such a pair (40-word divisor, 40-word quotient) *)
+Example dc_kernel_example :
+  let rhs := map (fun i => Z.of_nat i * 7 + 3) (seq 0 39) ++ [2 ^ 63 + 5] in
+  let lhs := map (fun i => 2 ^ 64 - 1 - Z.of_nat i) (seq 0 80) in
+  match i_dc_div_rem 64 (S (length lhs)) lhs rhs with
+  | Ok (res, c) =>
+      (Words.value 64 (firstn 40 res) =? Words.value 64 lhs mod Words.value 64 rhs) &&
+      (Words.value 64 (skipn 40 res) + 2 ^ (64 * 40) * Z.b2z c =? Words.value 64 lhs / Words.value 64 rhs)
+  | _ => false
+  end = true.
+Proof. vm_compute. reflexivity. Qed.
